@@ -261,8 +261,22 @@ def run(ctx):
             M[:3, :3], M[:3, 3] = R, tvec
             opts = {"gzip": rng.random() < 0.5, "flat": False}
             try:
-                rc = mesh_to_precomputed.mesh_file_to_precomputed(
-                    gpath, dest, mesh_name="m1", coord_transform=M[:3, :] if use_t else None, options=opts)
+                if rng.random() < 0.4:
+                    # through the command line (argparse glue: --coord-transform with 12 or 16 numbers, --mesh-name, --no-gzip)
+                    vals = (M[:3, :] if rng.random() < 0.5 else M).ravel()
+                    argv = ["mesh-to-precomputed", gpath, dest, "--mesh-name", "m1"]
+                    if use_t:
+                        argv += ["--coord-transform=" + ",".join(repr(float(v)) for v in vals)]
+                    if not opts["gzip"]:
+                        argv += ["--no-gzip"]
+                    ctx.bump("mesh_cli_runs")
+                    try:
+                        rc = mesh_to_precomputed.main(argv)
+                    except SystemExit as exc:
+                        rc = exc.code
+                else:
+                    rc = mesh_to_precomputed.mesh_file_to_precomputed(
+                        gpath, dest, mesh_name="m1", coord_transform=M[:3, :] if use_t else None, options=opts)
                 raw = get_accessor_for_url(dest).fetch_file("mesh/m1")
                 v2, t2 = mesh_mod.read_precomputed_mesh(io.BytesIO(raw))
             except Exception as exc:  # noqa
@@ -323,7 +337,15 @@ def run(ctx):
                 csv.writer(f).writerows(rows)
             nocolon = rng.random() < 0.5
             try:
-                link_mesh_fragments.make_mesh_fragment_links(cpath, dest, no_colon_suffix=nocolon, options=opts)
+                if rng.random() < 0.4:
+                    try:
+                        link_mesh_fragments.main(["link-mesh-fragments", cpath, dest] + (["--no-colon-suffix"] if nocolon else [])
+                                                 + ([] if opts["gzip"] else ["--no-gzip"]))
+                    except SystemExit as exc:
+                        if exc.code not in (0, None):
+                            raise RuntimeError(f"exit status {exc.code}")
+                else:
+                    link_mesh_fragments.make_mesh_fragment_links(cpath, dest, no_colon_suffix=nocolon, options=opts)
             except Exception as exc:  # noqa
                 ctx.oracle_fail(f"link-mesh-fragments raised {type(exc).__name__}: {exc}", {"rows": rows})
                 continue
